@@ -68,6 +68,21 @@ fn run_property(env: &Env, rec: &Recorder) -> (String, String, Vec<&'static str>
             let (r, a) = props::c07::run(env, rec);
             ("fault_enumeration".into(), r, a)
         },
+        "C08" =>
+        {
+            let (r, a) = props::c08::run(env, rec);
+            ("fault_enumeration".into(), r, a)
+        },
+        "C18" =>
+        {
+            let (r, a) = props::c18::run(env, rec);
+            ("fault_enumeration".into(), r, a)
+        },
+        "C02" =>
+        {
+            let (r, a) = props::c02::run(env, rec);
+            ("exploration".into(), r, a)
+        },
         "C12" =>
         {
             let (r, a) = props::c12::run(env, rec);
